@@ -23,7 +23,16 @@ after the other) followed by the remaining iterations; interruptions now include
 object and save() WITHOUT the raw data + from_file(path, dset=...) (`_dataset_metadata`); the
 observables include the validation losses, the per-iteration snapshots and the learned dataset
 parameters; the structural snapshots are compared with the model after every segment and after every
-single interruption.  See harness/props/C05.audit.md."""
+single interruption.  See harness/props/C05.audit.md.
+
+Round 4: (a) the hyper-parameters of a case (learning rate, momentum, scheduler factors) are handed to the
+library in every legitimate numeric FORM, per optimised model (Python int / float, np.int32 / int64 /
+float32 / float64; an integer form carries an integer rate, which a scheduler then makes fractional), the
+reported histories (iter_lrs per optimiser, iter_losses, val_iter_losses, snapshot iterations, num_iters) are
+read through the public accessors and compared as numbers, entry by entry and EXACTLY (learning rates also
+after continuing); (b) harness/c05_tie.py re-reads the source of reconnect_optimizer_to_parameters / to / save /
+the iteration loop / _record_iter / reset_recon / _store_current_iter_snapshot on every run and the facts the
+model assumes about them are re-proved (coq/gen_proofs/C05_Gen*.v)."""
 from __future__ import annotations
 
 import json
@@ -63,6 +72,7 @@ LIVE_OP = {"zip": "OpSaveContinue", "dir": "OpSaveContinue", "zip+to": "OpSaveCo
            "clone": None, "clone_fallback": "OpSaveContinue", "to": "OpTo", "meta": "OpSaveContinue",
            "meta_dir": "OpSaveContinue", "meta+to": "OpSaveContinue"}
 META = ("meta", "meta_dir", "meta+to")
+INT_FORMS = ("int", "np.int64", "np.int32")
 
 
 def segments(case):
@@ -141,6 +151,16 @@ def corpus_cases():
         # save -> load -> save -> load -> iterate -> save without data -> load
         dict(cfg=base_cfg(opt="sgd_momentum", sched="exp", obj_type="potential"), n=5, k=2, via="zip>dir",
              more=[[2, "meta+to"]]),
+        # ---- round 4: hyper-parameters in every legitimate numeric form ----
+        # learning rates given as Python ints, a scheduler that makes them fractional later
+        dict(cfg=base_cfg(opt="sgd_momentum", sched="plateau", lr={"object": 1, "probe": 1, "dataset": 1},
+                          num_form={"object": "int", "probe": "np.int64"}), n=5, k=3, via="dir"),
+        dict(cfg=base_cfg(opt="sgd", sched="exp", optimise=["object", "probe", "dataset"],
+                          lr={"object": 1, "probe": 2e-3, "dataset": 1},
+                          num_form={"object": "np.int32", "probe": "np.float32", "dataset": "int"}),
+             n=4, k=2, via="clone_fallback>zip"),
+        dict(cfg=base_cfg(opt="adamw", sched="cyclic", num_form={"object": "np.float32", "probe": "np.float64"}),
+             n=4, k=3, via="zip", more=[[1, "clone"]]),
     ]
     from ..common import VERIF
     p = VERIF / "corpus" / "C05" / "corpus.json"
@@ -152,7 +172,7 @@ def corpus_cases():
 def gen_cases(ctx: Ctx):
     r = ctx.rng
     cases = corpus_cases()
-    n_gen = ctx.budget(64, 640)
+    n_gen = ctx.budget(48, 640)
 
     def cyc(vals):
         vals = list(vals)
@@ -169,6 +189,11 @@ def gen_cases(ctx: Ctx):
                  "clone_fallback>clone"])
     more3 = cyc(["zip", "clone", "to", "meta", "dir>zip", "clone>clone_fallback"])
     r3_shift = r.randrange(0, 1320)
+    # round 4: the numeric FORM of the hyper-parameters (learning rate, momentum, scheduler factors), per
+    # optimised model; 11 entries: coprime with the lengths of all the other cycles
+    forms = cyc(["float", "float", "float", "float", "int", "int", "np.int64", "np.int32", "np.float32",
+                 "np.float64", "np.float32"])
+    r4_shift = r.randrange(0, 11)
     for i in range(n_gen):
         n = r.choice([2, 3, 4, 5] if ctx.quick else [1, 2, 3, 4, 5, 6, 8])
         k = r.choice([0, n, r.randint(0, n), r.randint(1, max(1, n - 1)), r.randint(1, max(1, n - 1))])
@@ -182,6 +207,17 @@ def gen_cases(ctx: Ctx):
                 "dataset": r.choice([5e-4, 1e-3])},
             learn_probe_tilt=(i % 7 == 3), num_slices=2 if i % 9 == 4 else 1,
         )
+        nf = {key: forms[(i + r4_shift + 4 * pos) % len(forms)] for pos, key in enumerate(("object", "probe", "dataset"))}
+        if any(f != "float" for f in nf.values()):
+            cfg["num_form"] = nf
+            for key, f in nf.items():
+                # an integer form needs an integer rate.  Only with the sgd family: a rate of 1 is an ordinary
+                # converging run there, while Adam / AdamW at lr = 1 is a chaotic regime on the toy problem
+                # (loss 0.5 -> 3 -> 0.5) in which two runs that differ only in memory alignment (a deepcopy
+                # BEFORE the first iteration) already drift apart by 2e-4; with the Adam family the integer
+                # forms therefore reach the other integer-valued hyper-parameters only (see the audit)
+                if f in INT_FORMS and cfg["opt"] in ("sgd", "sgd_momentum"):
+                    cfg["lr"][key] = 1
         case = dict(cfg=cfg, n=n, k=k, via=vias[i % len(vias)])
         # ---- round 3 dimensions, cycled so that every value meets every older dimension over the seeds
         j = i + r3_shift
@@ -302,6 +338,8 @@ def run_case(case, workdir):
             out["saved"] = T.numeric_obs(cur)
         for atom in atoms:
             before = T.numeric_obs(cur)
+            if atom != "to" and T.int_then_frac(cur):
+                out["int_then_frac_at_save"] = True      # coverage statistic only
             new = T.interrupt(cur, atom, workdir, tag=tag, cfg=cfg)
             if cur is pt and new is not pt:
                 ops_live = list(ops_cur) + ([LIVE_OP[atom]] if LIVE_OP[atom] else [])
@@ -362,7 +400,7 @@ def oracle(case, res):
     #     validation losses, snapshots; + the learned dataset parameters)
     for atom, after, before in res["reports"]:
         kind = "clone" if atom.startswith("clone") else "to" if atom == "to" else "reload"
-        m = T.compare_numeric(after, before, TOL_REPORT)
+        m = T.compare_numeric(after, before, TOL_REPORT, exact_hist=True)
         if m:
             noun = {"clone": "cloned", "to": "moved (.to)", "reload": "reloaded"}[kind]
             verb = {"clone": "cloned", "to": "there before", "reload": "saved"}[kind]
@@ -449,6 +487,8 @@ def describe(case):
         extra += " more=%s" % case["more"]
     if case.get("reset_last"):
         extra += " reset_last"
+    if c.get("num_form"):
+        extra += " lr=%s forms=%s" % ({k_: c["lr"][k_] for k_ in c["optimise"]}, {k_: c["num_form"].get(k_, "float") for k_ in c["optimise"]})
     return "opt=%s sched=%s obj=%s probes=%d optimise=%s tilt=%s slices=%d scan=%s n=%d k=%d via=%s%s" % (
         c["opt"], c["sched"], c["obj_type"], c["num_probes"], "+".join(c["optimise"]), c["learn_probe_tilt"],
         c["num_slices"], tuple(c["scan"]), case["n"], case["k"], case["via"], extra)
@@ -486,7 +526,11 @@ def run(ctx: Ctx):
         "iterations, snapshots stored every iteration (compared per iteration), a deterministic validation split "
         "(sgd family), non-default constraints on object / probe / dataset, learned probe tilt with 2 slices, a "
         "continuation call with reset=True, potential objects that start from a seeded positive array (a uniform "
-        "zero potential never moves in the toy problem); 17 fixed corpus cases first, then a seeded stream cycling "
+        "zero potential never moves in the toy problem); round 4: the numeric FORM of the hyper-parameters per optimised "
+        "model in {float, int, np.int64, np.int32, np.float32, np.float64} (learning rate, momentum, gamma / factor / "
+        "threshold / min_lr / start_factor / end_factor / base_lr / max_lr; an integer form is applied to integer values: "
+        "a learning rate of 1 with the sgd family - exp and plateau schedulers then make it fractional -, end_factor = 1 "
+        "otherwise); 20 fixed corpus cases first, then a seeded stream cycling "
         "through every value of every dimension.  Distinct by (configuration, n, k, via, more); non-trivial when "
         "0 < k < n and at least one optimiser keeps per-parameter state or a scheduler is attached.")
     ctx.assumptions += [
@@ -505,18 +549,32 @@ def run(ctx: Ctx):
         "reported state and the persistence of the learned scan positions / descan shifts are judged (in Coq: "
         "C05_meta_route_refuted_when_dataset_optimised); the dataset supplied at load time is the same data, freshly "
         "preprocessed, with default dataset constraints",
+        "integer learning rates (value 1) are generated with the sgd family only: Adam / AdamW at lr = 1 is a chaotic "
+        "regime on the toy problem in which two runs that differ only in memory alignment (a deepcopy BEFORE the first "
+        "iteration) drift apart by 2e-4; with the Adam family the integer forms reach the other integer-valued "
+        "hyper-parameters, the NumPy float forms reach everything",
         "the model is the code with the state re-keyed by parameter (fixes/C05-reconnect-rekey-by-parameter.diff); "
         "for the positional re-keying of the pinned commit the resume theorem is refuted in Coq "
         "(C05_resume_equiv_as_written_refuted) and reproduced here by the learn_probe_tilt corpus case",
     ]
     ctx.cov["trusted_base"] += [
         "Coq 8.16.1 kernel incl. vm_compute (used to run the model and in the concrete witnesses)",
-        "hand-written model coq/model/C05_Model.v, tied to /repo by the structural correspondence of this run",
+        "hand-written model coq/model/C05_Model.v, tied to /repo by the structural correspondence of this run and, for "
+        "the effect order of reconnect / to / save / the iteration body / _record_iter and the reset / snapshot attribute "
+        "lists, by the source tie re-proved on this run (harness/c05_tie.py, coq/model/C05_Tie_Model.v interpreters)",
         "the numerical kernels (forward/backward, torch.optim update rules, lr_scheduler rules) are universally "
         "quantified functions in the theorems, NOT modelled: their resume behaviour is covered by the differential runs only",
         "harness/props/C05.py, harness/c05_toy.py (drivers, observable extraction), harness/toy_ptycho.py (simulated data), harness/common.py",
     ]
     ctx.proofs_or_violation()
+    ctx.hash_sources("diffractive_imaging/./ptychography.py", ["Ptychography.reset_recon"])
+    try:  # round 4: the state-machine facts the model assumes about the code (effect order of reconnect / to / save,
+        # the iteration body, _record_iter, reset_recon and snapshot attribute lists) are read off the CURRENT source
+        # and proved to be the model's, on every run (coq/gen_proofs/C05_Gen*.v)
+        from ..c05_tie import run_tie
+        run_tie(ctx, n_cross=200 if ctx.quick else 1000)
+    except Exception as e:  # noqa  (fail closed: the tie could not be established)
+        ctx.broken_obligation = "; ".join(filter(None, [ctx.broken_obligation, "source tie could not run: %r" % (e,)]))
 
     _prepare()
     from .. import c05_toy as T  # noqa
@@ -547,6 +605,11 @@ def run(ctx: Ctx):
         ctx.dist("split=%s" % ("k=0" if case["k"] == 0 else "k=n" if case["k"] == case["n"] else "0<k<n"))
         if cfg["learn_probe_tilt"]:
             ctx.dist("probe_tilt_learned")
+        fm = [(cfg.get("num_form") or {}).get(k_, "float") for k_ in cfg["optimise"]]
+        for f_ in sorted(set(fm)):
+            ctx.dist("hyperparameter_form=%s" % f_)
+        if any(isinstance(cfg["lr"][k_], int) for k_ in cfg["optimise"]):
+            ctx.dist("integer_lr")
         try:
             res = run_case(case, workdir)
         except Exception as e:  # the implementation crashed on a valid history
@@ -558,6 +621,8 @@ def run(ctx: Ctx):
             continue
         bad = oracle(case, res)
         res["bad"] = bad
+        if res.get("int_then_frac_at_save"):
+            ctx.dist("saved_lr_history_starts_integer_turns_fractional")
         for bkey, what in bad:
             ctx.violation(bkey, what + "  [" + describe(case) + "]", {"kind": "case", "case": case})
         if not bad:
